@@ -1,6 +1,7 @@
 package main
 
 import (
+	"os"
 	"fmt"
 	"go/ast"
 	"go/token"
@@ -682,8 +683,23 @@ func (x *Unit) invoke1(st *State, pc *preparedCall, n int) []Val {
 			return x.inlineDecl(st, fd, callee, pc)
 		}
 	}
+	// an unexported helper of the caller's own package that has no contract (typically a few lines extracted from a
+	// function under contract) is executed in place, so that the caller's contract still speaks about what it does
+	if autoInlineHelpers && !callee.Exported() && callee.Pkg() == x.pkg.Types && x.inlineDepth < 3 {
+		if fd := x.eng.declFor(callee); fd != nil && fd.decl.Body != nil && !x.inlining[callee] {
+			if x.inlining == nil {
+				x.inlining = map[*types.Func]bool{}
+			}
+			x.inlining[callee] = true
+			defer delete(x.inlining, callee)
+			x.note("helper without a contract executed in place: " + pkgPath + "." + key)
+			return x.inlineDecl(st, fd, callee, pc)
+		}
+	}
 	return x.unknownCall(st, pc, name, n)
 }
+
+var autoInlineHelpers = os.Getenv("GOVC_NO_AUTOINLINE") == ""
 
 func funcKey(f *types.Func) (key, pkgPath string) {
 	if f.Pkg() != nil {
@@ -1021,6 +1037,7 @@ func (x *Unit) bindNames(b *Block, pc *preparedCall, recvName string) map[string
 		names[recvName] = *pc.recv
 		names["self"] = *pc.recv
 	}
+	x.aliasParams(pc.callee, sig, pc.args, pc.recv, names, true)
 	return names
 }
 
@@ -1275,6 +1292,7 @@ func (x *Unit) atCall(st *State, pc *preparedCall, shortName, funText string) {
 		args["self"] = *pc.recv
 		args["recv"] = *pc.recv
 	}
+	x.aliasParams(pc.callee, sig, pc.args, nil, args, false)
 	for _, i := range matched {
 		cl := b.Clauses[i]
 		if cl.AtOrd >= 0 && cl.AtOrd != ord {
